@@ -182,7 +182,7 @@ graph!(c10_graph_1_none, 1, 0);
 graph!(c10_graph_1_self, 1, 1);
 //@ props=C10 tier=thorough bounds=graph:2-node-chain;labels-symbolic
 graph!(c10_graph_2_none, 2, 0);
-//@ props=C10 tier=quick bounds=graph:2-cycle;labels-symbolic
+//@ props=C10 tier=thorough bounds=graph:2-cycle;labels-symbolic cap=2400
 graph!(c10_graph_2_cycle, 2, 1);
 //@ props=C10 tier=off bounds=graph:2-nodes,self-loop-on-second;labels-symbolic
 graph!(c10_graph_2_self, 2, 2);
@@ -273,7 +273,23 @@ fn offer_sequence(seq: &[usize]) {
 fn sctx_drop_guard() {}
 
 proof! {
-    //@ props=C10 tier=quick bounds=history:all-14-canonical-sequences-of-4-offers-over-3-objects(concrete) cap=900
+    //@ props=C10 tier=off bounds=history:offers-x,x,y,y(repeat-then-new-object-then-its-repeat) cap=900
+    fn c10_offer_sequence_xxyy() unwind(6) {
+        offer_sequence(&[0, 0, 1, 1]);
+        cover!(true);
+    }
+}
+
+proof! {
+    //@ props=C10 tier=off bounds=history:offers-x,y,x,z,y,z cap=2400
+    fn c10_offer_sequence_xyxzyz() unwind(8) {
+        offer_sequence(&[0, 1, 0, 2, 1, 2]);
+        cover!(true);
+    }
+}
+
+proof! {
+    //@ props=C10 tier=off bounds=history:all-14-canonical-sequences-of-4-offers-over-3-objects(concrete) cap=900
     fn c10_offer_sequences_4() unwind(6) {
         offer_sequence(&[0, 0, 0, 0]); offer_sequence(&[0, 0, 0, 1]); offer_sequence(&[0, 0, 1, 0]);
         offer_sequence(&[0, 0, 1, 1]); offer_sequence(&[0, 0, 1, 2]); offer_sequence(&[0, 1, 0, 0]);
